@@ -43,6 +43,10 @@ func xScenarios() []xScenario {
 			m := cMessage("User", fld("id", "string"), fld("addr", "message").msg(cMessage("Addr", fld("street", "string"), fld("zip_code", "string"))).ann("IsFlattenField", tru))
 			return m, []string{"id", "street", "zipCode"}
 		}, "_flatten.pb.go"},
+		{"flatten whose child has a field named like the flattened field", func() (*VStruct, []string) {
+			m := cMessage("Invoice", fld("id", "string"), fld("amount", "message").msg(cMessage("Money", fld("currency", "string"), fld("amount", "int32"))).ann("IsFlattenField", tru))
+			return m, []string{"id", "currency", "amount"}
+		}, "_flatten.pb.go"},
 		{"nested discriminated oneof", func() (*VStruct, []string) {
 			a := fld("text", "message").msg(cMessage("TextContent", fld("body", "string")))
 			b := fld("image_ref", "message").msg(cMessage("ImageContent", fld("url", "string")))
